@@ -27,6 +27,13 @@ def make_field(fam, periodic, variant=0):
     if fam == "cart1":
         g = CartesianGrid([[0, 32]], 32, periodic=periodic)
         ds = [DiffuseDroplet([8.0 + s], 3, 1.0), DiffuseDroplet([22.0], 4, 1.0)]
+    elif fam == "cart2" and variant == 2:
+        # strongly anisotropic cells: a two-cell cluster whose equivalent droplet covers no support point
+        g = CartesianGrid([[0, 120], [0, 2.0]], [12, 20], periodic=[periodic, False])
+        field = Emulsion([]).get_phasefield(g)
+        field.data[5:7, :] = 1.0       # an ordinary cluster
+        field.data[2:4, 3] = 1.0       # the thin one
+        return field, 2
     elif fam == "cart2":
         g = CartesianGrid([[0, 24], [0, 20]], [24, 20], periodic=[periodic, False])
         ds = [DiffuseDroplet([6.0 + s, 6.0], 4, 1.0), DiffuseDroplet([17.0, 13.0 - s], 4.5, 1.0)]
@@ -63,7 +70,7 @@ def run_request(rec, variant=0):
     fails = []
     field, ndrops = make_field(req["fam"], req["periodic"], variant)
     thr = 0.5 if req["thr"] == "0.5" else req["thr"]
-    width = GIVEN_WIDTH if req["width"] == "given" else None
+    width = {"given": GIVEN_WIDTH, "zero": 0.0, "none": None}[req["width"]]
     ra = {"least_squares_params": {"max_nfev": 8}} if req["refine"] else None
     try:
         with warnings.catch_warnings():
@@ -90,6 +97,8 @@ def run_request(rec, variant=0):
             fails.append(f"{modes} amplitudes, requested {rec['namps']}")
         if rec["cls"] != "SphericalDroplet" and hasattr(d, "interface_width"):
             w = d.interface_width
+            if rec["width"] == "zero" and w != 0.0:
+                fails.append(f"supplied width 0 not carried: {w}")
             if rec["width"] == "given" and w != GIVEN_WIDTH:
                 fails.append(f"supplied width not carried: {w}")
             if rec["width"] == "none" and w is not None:
